@@ -180,6 +180,38 @@ def apply_step(pool, step, cfg):
         return [pool[step[1]].diag()]
     if op == "flip_charges":
         return [pool[step[1]].flip_charges(axes=tuple(step[2]))]
+    if op == "addn_lazy":
+        # n-ary linear combination whose operands are the same logical tensor in different lazy states
+        _, i, perm, amps, pos = step
+        a = pool[i]
+        inv = [int(x) for x in np.argsort(perm)]
+        lazy = a.transpose(tuple(perm)).consume_transpose().transpose(tuple(inv))     # pending transpose, other native order
+        ops = [a, a.copy(), a * 1.0]
+        ops[pos] = lazy
+        return [yastn.add(*ops, amplitudes=list(amps))]
+    if op == "add_mismatch":
+        # two individually well-formed tensors that give different dimensions to one sector in disjoint blocks:
+        # a + b must be rejected (YastnError) - or, if anything is returned, the monitors judge it
+        _, i, k = step
+        a = pool[i].consume_transpose()
+        nsym = a.config.sym.NSYM
+        half = len(a.struct.t) // 2
+        c0 = a.struct.t[half][k * nsym:(k + 1) * nsym]
+        lo = yastn.Tensor(config=a.config, s=a.struct.s, n=a.struct.n, dtype=a.yastn_dtype)
+        hi = yastn.Tensor(config=a.config, s=a.struct.s, n=a.struct.n, dtype=a.yastn_dtype)
+        for j, (t, Dd) in enumerate(zip(a.struct.t, a.struct.D)):
+            if j < half:
+                lo.set_block(ts=t, Ds=Dd, val="ones")
+            else:
+                Dn = tuple(d + (1 if (q == k and t[k * nsym:(k + 1) * nsym] == c0) else 0) for q, d in enumerate(Dd))
+                hi.set_block(ts=t, Ds=Dn, val="ones")
+        for x, y in ((lo, hi), (hi, lo)):
+            try:
+                x + y            # whatever is returned is judged by the boundary monitors at the __add__ event
+            except Exception as e:
+                if type(e).__name__ != "YastnError":
+                    raise
+        return []                # nothing joins the pool: which blocks are stored (hence the split) may depend on the configuration
     if op == "zero_block":
         c = pool[step[1]].copy()
         key = tuple(step[2])
@@ -272,7 +304,8 @@ def propose(pool, rng, fermionic, fuse_modes=(None, None, "hard", "meta")):
         return rng.choices(c, weights=w)[0]
     kind = rng.choice(("transpose", "conj", "scale", "add", "tensordot", "tensordot", "tensordot", "trace", "fuse", "fuse",
                        "unfuse", "svd", "qr", "add_leg", "remove_leg", "vdot", "norm", "swap_gate", "ncon", "broadcast",
-                       "mask", "lazy", "diag", "flip_charges", "to_dict", "zero_block", "remove_zero_blocks", "unit_legs"))
+                       "mask", "lazy", "diag", "flip_charges", "to_dict", "zero_block", "remove_zero_blocks", "unit_legs",
+                       "addn_lazy", "add_mismatch"))
     if kind == "transpose":
         i = pick(lambda t: t.ndim >= 2 and not t.isdiag)
         if i is None:
@@ -356,6 +389,29 @@ def propose(pool, rng, fermionic, fuse_modes=(None, None, "hard", "meta")):
         if i is None:
             return None
         return ("add_leg", i, rng.randint(0, pool[i].ndim), rng.choice((1, -1)))
+    if kind == "addn_lazy":
+        i = pick(lambda t: t.ndim >= 2 and not t.isdiag)
+        if i is None:
+            return None
+        perm = list(range(pool[i].ndim)); rng.shuffle(perm)
+        if perm == sorted(perm):
+            perm = perm[1:] + perm[:1]
+        return ("addn_lazy", i, perm, [rng.choice((1, -0.5, 2.0)) for _ in range(3)], rng.randrange(3))
+    if kind == "add_mismatch":
+        def ok(t):
+            if t.isdiag or t.ndim < 1 or len(t.struct.t) < 2 or any(is_fused(l) for l in t.get_legs()):
+                return False
+            return True
+        i = pick(ok)
+        if i is None:
+            return None
+        a = pool[i].consume_transpose()
+        nsym, half = a.config.sym.NSYM, len(a.struct.t) // 2
+        # leg k whose charge in the first block of the upper half also occurs in the lower half
+        ks = [k for k in range(a.ndim_n) if any(t[k * nsym:(k + 1) * nsym] == a.struct.t[half][k * nsym:(k + 1) * nsym] for t in a.struct.t[:half])]
+        if not ks:
+            return None
+        return ("add_mismatch", i, rng.choice(ks))
     if kind == "unit_legs":
         i = pick(lambda t: not t.isdiag and t.ndim <= MAX_RANK - 2)
         if i is None:
